@@ -48,9 +48,14 @@ def install(reg):
             for d_ in shape:
                 if isinstance(d_, Sym) and d_.is_int and interp.ctx.branch(d_.t < 0):
                     raise RaiseSig(RuntimeError("Trying to create tensor with negative dimension"))
-            kind = "int" if dtype in (torch.int32, torch.int64, torch.long, torch.int) else "bool" if dtype is torch.bool else kind_default
+            int_dtypes = (torch.int8, torch.uint8, torch.int16, torch.int32, torch.int64, torch.long, torch.int, torch.short)
+            kind = "int" if dtype in int_dtypes else "bool" if dtype is torch.bool else kind_default
             v = (False if val == 0 else True) if kind == "bool" else (val if kind == "int" else float(val))
-            return tensor(shape, lambda *i: v, kind)
+            r = tensor(shape, lambda *i: v, kind)
+            # the requested dtype is recorded (None = torch's default float32): the engine computes with mathematical integers /
+            # reals (A1, A2), so whether the dtype can HOLD the values the code stores is for a contract clause to state
+            r.requested_dtype = dtype
+            return r
         return h
 
     M[torch.zeros] = _const(0, "real")
